@@ -14,7 +14,6 @@ package main
 
 import (
 	"bufio"
-	"bytes"
 	"context"
 	"encoding/json"
 	"errors"
@@ -41,10 +40,12 @@ type label struct {
 }
 
 type script struct {
-	Hist   []label `json:"hist"`
-	Result []int   `json:"result"`
-	NC     int     `json:"nc"`
-	NN     int     `json:"nn"`
+	Hist     []label `json:"hist"`
+	Result   []int   `json:"result"`
+	NC       int     `json:"nc"`
+	NN       int     `json:"nn"`
+	StrayIDs []tid   `json:"strayIds"` // the spec's StrayIdSeq: a "stray" label names its id by 1-based index
+	PcallIDs []tid   `json:"pcallIds"` // the spec's PeerCallIdSeq
 }
 
 // ---------------------------------------------------------------------------------------------
@@ -112,9 +113,10 @@ type event struct {
 	Seq    int64  `json:"-"`
 	E      string `json:"e"`
 	W      int    `json:"w"`
+	ID     tid    `json:"id"`
 	Found  bool   `json:"found"`
 	Failed bool   `json:"failed"`
-	Pend   []int  `json:"pend"`
+	Pend   []tid  `json:"pend"`
 	Res    int    `json:"res"`
 	rawID  string
 	rawPnd []string
@@ -162,6 +164,17 @@ type run struct {
 	peerErr   []string
 	pongs     int
 	pcallsOut int
+	strayQ    map[string]bool // %q forms of the ids of the stray responses the peer has sent
+	paramOf   map[int]string  // caller -> params of its request as the peer received them (the call's marker)
+	timedOut  []int           // burst: callers the watchdog had to cancel
+	// burst mode: callers and notifiers spin on gate and enter the conn together; the peer holds its answers
+	// until it has received `hold` requests and then answers in a shuffled order
+	gate      *atomic.Bool
+	ready     atomic.Int32
+	burst     bool
+	hold      int
+	held      []int
+	burstRng  *rand.Rand
 	notesIn   int
 	nextNote  int
 	probePend []string
@@ -180,6 +193,7 @@ const (
 	resCancel = -1
 	resWerr   = -2
 	resOther  = -99
+	strayTok  = 99 // the spec's STRAY marker
 )
 
 var (
@@ -206,7 +220,7 @@ func (r *run) role() int {
 
 func (r *run) onHook(ev jsonrpc2.VerifEvent) {
 	who := r.role()
-	e := event{Seq: ev.Seq, E: ev.Ev, W: who, Found: ev.Found, Failed: ev.Failed, rawID: ev.ID, rawPnd: ev.Pending}
+	e := event{Seq: ev.Seq, E: ev.Ev, W: who, ID: tidOfQ(ev.ID), Found: ev.Found, Failed: ev.Failed, rawID: ev.ID, rawPnd: ev.Pending}
 	r.mu.Lock()
 	switch ev.Ev {
 	case "reg":
@@ -222,6 +236,9 @@ func (r *run) onHook(ev jsonrpc2.VerifEvent) {
 		}
 	case "disp":
 		e.W = r.callerOf[ev.ID] // 0 when the id is not a call of this conn
+		if _, ok := r.callerOf[ev.ID]; !ok && r.strayQ[ev.ID] {
+			e.W = strayTok
+		}
 	}
 	r.log = append(r.log, e)
 	r.mu.Unlock()
@@ -232,6 +249,9 @@ func (r *run) onHook(ev jsonrpc2.VerifEvent) {
 		r.inWrite.Add(1)
 	case "wend":
 		r.inWrite.Add(-1)
+	}
+	if len(r.steps) == 0 {
+		return
 	}
 	var st *obsStep
 	idx := -1
@@ -302,7 +322,9 @@ func (r *run) exec(batch []label) map[int]bool {
 		case "pnotify":
 			r.peerNotify()
 		case "pcall":
-			r.peerCall()
+			r.peerCall(l.W)
+		case "stray":
+			r.stray(l.W)
 		}
 	}
 	return cancelled
@@ -313,8 +335,6 @@ func (r *run) add(e event) {
 	r.log = append(r.log, e)
 	r.mu.Unlock()
 }
-
-func token(c int) string { return "r" + strconv.Itoa(c) }
 
 func (r *run) startCaller(c int) {
 	r.mu.Lock()
@@ -332,6 +352,7 @@ func (r *run) startCaller(c int) {
 		r.mu.Lock()
 		r.roles[g] = c
 		r.mu.Unlock()
+		r.waitGate()
 		var got string
 		_, err := r.conn.Call(r.ctxs[c], "c"+strconv.Itoa(c), "p"+strconv.Itoa(c), &got)
 		seq := jsonrpc2.VerifSeq()
@@ -367,12 +388,24 @@ func (r *run) startNotifier(n int) {
 		r.mu.Lock()
 		r.roles[g] = n
 		r.mu.Unlock()
+		r.waitGate()
 		if err := r.conn.Notify(context.Background(), "note", n); err != nil {
 			r.mu.Lock()
 			r.peerErr = append(r.peerErr, "Notify failed: "+err.Error())
 			r.mu.Unlock()
 		}
 	}()
+}
+
+// waitGate: in a burst every caller and notifier spins here until all of them are ready, so that they enter
+// Call / Notify within nanoseconds of each other on different CPUs.
+func (r *run) waitGate() {
+	if r.gate == nil {
+		return
+	}
+	r.ready.Add(1)
+	for !r.gate.Load() {
+	}
 }
 
 func (r *run) cancel(c int) {
@@ -396,34 +429,52 @@ func (r *run) reply(c int) {
 		return
 	}
 	r.replied[c] = true
-	id := r.idOf[c]
+	id := tidOfQ(r.idOf[c])
+	// the peer echoes the marker of the request it answers: params "p<k>" -> result "r<k>"
+	tok := "r" + strings.TrimPrefix(strings.Trim(r.paramOf[c], `"`), "p")
 	r.mu.Unlock()
-	r.peerSend("reply", c, fmt.Sprintf(`{"jsonrpc":"2.0","id":%s,"result":%q}`, jsonID(id), token(c)))
+	r.peerSend("reply", c, id, fmt.Sprintf(`{"jsonrpc":"2.0","id":%s,"result":%q}`, id.wire(), tok))
 }
 
-// jsonID turns the %q form of an id ("#3" or "\"abc\"") into its JSON form
-func jsonID(q string) string { return strings.TrimPrefix(q, "#") }
+// stray: the peer sends a response nobody asked for, with the k-th id of the spec's StrayIdSeq -- e.g. the
+// STRING "1" while the call with the NUMBER 1 is pending.
+func (r *run) stray(k int) {
+	if k < 1 || k > len(r.sc.StrayIDs) {
+		vhlib.Fatal("case %d: stray id index %d outside the vocabulary", r.id, k)
+	}
+	id := r.sc.StrayIDs[k-1]
+	r.mu.Lock()
+	r.strayQ[id.q()] = true
+	r.mu.Unlock()
+	r.peerSend("stray", strayTok, id, fmt.Sprintf(`{"jsonrpc":"2.0","id":%s,"result":%q}`, id.wire(), "r"+strconv.Itoa(strayTok)))
+}
 
 // peerSend logs the event and puts the frame on the wire in one step: the order of the peer's events in
 // the trace is the order of its messages in the byte stream.
-func (r *run) peerSend(ev string, w int, body string) {
+func (r *run) peerSend(ev string, w int, id tid, body string) {
 	r.pw.Lock()
 	defer r.pw.Unlock()
-	r.add(event{Seq: jsonrpc2.VerifSeq(), E: ev, W: w})
+	r.add(event{Seq: jsonrpc2.VerifSeq(), E: ev, W: w, ID: id})
 	r.toConn.Write([]byte(fmt.Sprintf("Content-Length: %d\r\n\r\n%s", len(body), body)))
 }
 
 func (r *run) peerNotify() {
-	r.peerSend("pnotify", 0, `{"jsonrpc":"2.0","method":"peer/note","params":"é"}`)
+	r.peerSend("pnotify", 0, noTid, `{"jsonrpc":"2.0","method":"peer/note","params":"é"}`)
 }
 
-func (r *run) peerCall() {
+// peerCall: the peer calls the conn with the k-th id of the spec's PeerCallIdSeq (numbers equal to the conn's
+// own call ids, numeric-looking strings, ordinary strings).
+func (r *run) peerCall(k int) {
+	if k < 1 || k > len(r.sc.PcallIDs) {
+		vhlib.Fatal("case %d: peer call id index %d outside the vocabulary", r.id, k)
+	}
+	id := r.sc.PcallIDs[k-1]
 	r.wantWrite.Add(1)
 	r.mu.Lock()
 	r.pcallsOut++
-	k := r.pcallsOut
+	n := r.pcallsOut
 	r.mu.Unlock()
-	r.peerSend("pcall", 0, fmt.Sprintf(`{"jsonrpc":"2.0","id":"p%d","method":"peer/ping","params":%d}`, k, k))
+	r.peerSend("pcall", 0, id, fmt.Sprintf(`{"jsonrpc":"2.0","id":%s,"method":"peer/ping","params":%d}`, id.wire(), n))
 }
 
 // peerLoop reads what the conn writes with an independent minimal frame parser.
@@ -489,29 +540,43 @@ func (r *run) peerLoop(done chan<- struct{}) {
 			}
 			r.mu.Lock()
 			r.peerGot[c] = true
-			q := string(*m.ID)
-			if !strings.HasPrefix(q, `"`) {
-				q = "#" + q
+			r.paramOf[c] = string(m.Params)
+			q := tidOfRaw(*m.ID).q()
+			// the id the peer answers with is the id it found in the request; the trace spec compares it
+			// with the id the call registered (reply: e.id = MyId(c))
+			r.idOf[c] = q
+			if _, ok := r.callerOf[q]; !ok {
+				r.callerOf[q] = c
 			}
-			if old, ok := r.idOf[c]; ok && old != q {
-				r.peerErr = append(r.peerErr, fmt.Sprintf("call c%d went out with id %s but was registered as %s", c, q, old))
-			}
-			r.idOf[c], r.callerOf[q] = q, c
 			d := r.deferred[c]
+			var release []int
+			if r.burst {
+				r.held = append(r.held, c)
+				if len(r.held) >= r.hold {
+					release = r.held
+					r.held, r.hold = nil, 1 // the rest is answered on arrival
+					r.burstRng.Shuffle(len(release), func(i, j int) { release[i], release[j] = release[j], release[i] })
+				}
+			}
 			r.mu.Unlock()
 			if d {
 				r.reply(c)
+			}
+			for _, x := range release {
+				r.reply(x)
 			}
 		case m.Method != "":
 			r.mu.Lock()
 			r.notesIn++
 			r.mu.Unlock()
 		default: // answer to a call of the peer
+			// which id it carries (type and text) is recorded as a pong event and judged by the trace spec
 			r.mu.Lock()
-			if m.ID == nil || !bytes.HasPrefix(*m.ID, []byte(`"p`)) || string(m.Result) != `"pong"` {
+			if m.ID == nil || string(m.Result) != `"pong"` {
 				r.peerErr = append(r.peerErr, fmt.Sprintf("unexpected response %q", body))
 			} else {
 				r.pongs++
+				r.log = append(r.log, event{Seq: jsonrpc2.VerifSeq(), E: "pong", W: 0, ID: tidOfRaw(*m.ID)})
 			}
 			r.mu.Unlock()
 		}
@@ -545,7 +610,7 @@ func compile(sc *script) (initial []label, steps []*obsStep) {
 			obs("disp", l.W)
 		case "del":
 			obs("del", l.W)
-		case "cancel", "reply", "pnotify", "pcall":
+		case "cancel", "reply", "pnotify", "pcall", "stray":
 			push(l)
 		}
 	}
@@ -586,6 +651,12 @@ func (r *run) describeCase(detail string) connCase {
 			}
 		case "ret":
 			x += fmt.Sprintf(" res=%d", e.Res)
+		case "reply", "stray", "pcall", "pong":
+			x += " id=" + e.ID.q()
+		case "wbeg":
+			if e.ID.T != "none" {
+				x += " id=" + e.ID.q()
+			}
 		}
 		es = append(es, x)
 	}
@@ -675,16 +746,69 @@ func firstLines(s string, n int) string {
 	return strings.Join(l, "\n")
 }
 
-func runCase(id int, sc *script) (cr caseResult) {
-	ncall := sc.NC + 1 // the last caller is the probe
+func newRun(id int, sc *script, ncall int) *run {
 	r := &run{id: id, sc: sc, ncall: ncall, toConn: newBufPipe(), toPeer: newBufPipe(),
 		roles: map[int64]int{}, idOf: map[int]string{}, callerOf: map[string]int{}, peerGot: map[int]bool{}, deferred: map[int]bool{},
-		replied: map[int]bool{}, cancelled: map[int]bool{}, started: map[int]bool{}, returned: map[int]int{}, retErr: map[int]string{}}
+		replied: map[int]bool{}, cancelled: map[int]bool{}, started: map[int]bool{}, returned: map[int]int{}, retErr: map[int]string{},
+		strayQ: map[string]bool{}, paramOf: map[int]string{}}
 	r.ctxs = make([]context.Context, ncall+1)
 	r.cancels = make([]context.CancelFunc, ncall+1)
 	for c := 1; c <= ncall; c++ {
 		r.ctxs[c], r.cancels[c] = context.WithCancel(context.Background())
 	}
+	return r
+}
+
+// traceNC is NC of spec/JsonRpc_trace.cfg: the callers of a script plus the probe, or the callers of a burst.
+const traceNC = 4
+
+// traceLine renders the recorded execution as one case for TraceJsonRpc.tla: the events in the order of the
+// global sequence counter, real ids as typed values; regnum[c] is the number in c's reg event (the id
+// allocation itself has no hook), lazy the callers that were cancelled.
+func (r *run) traceLine(eager bool) ([]byte, int) {
+	r.mu.Lock()
+	evs := append([]event(nil), r.log...)
+	r.mu.Unlock()
+	sort.SliceStable(evs, func(i, j int) bool { return evs[i].Seq < evs[j].Seq })
+	nnote := 0
+	noteOf := map[int]int{}
+	regnum := make([]int, traceNC)
+	lazy := []int{}
+	for i := range evs {
+		e := &evs[i]
+		e.Pend = []tid{}
+		for _, p := range e.rawPnd {
+			e.Pend = append(e.Pend, tidOfQ(p))
+		}
+		// notifiers are interchangeable: number their writes in the order they happen
+		if e.W > 10 && (e.E == "wbeg" || e.E == "wend") {
+			if _, ok := noteOf[e.W]; !ok {
+				nnote++
+				noteOf[e.W] = 10 + nnote
+			}
+			e.W = noteOf[e.W]
+		}
+		if e.E == "reg" && e.W >= 1 && e.W <= traceNC && e.ID.T == "num" && e.ID.N != noNum {
+			regnum[e.W-1] = e.ID.N
+		}
+		if e.E == "cancel" {
+			seen := false
+			for _, c := range lazy {
+				seen = seen || c == e.W
+			}
+			if !seen {
+				lazy = append(lazy, e.W)
+			}
+		}
+	}
+	timedOut := append([]int{}, r.timedOut...)
+	line, _ := json.Marshal(map[string]any{"id": r.id, "eager": eager, "regnum": regnum, "lazy": lazy, "ev": evs, "timedout": timedOut})
+	return line, len(evs)
+}
+
+func runCase(id int, sc *script) (cr caseResult) {
+	ncall := sc.NC + 1 // the last caller is the probe
+	r := newRun(id, sc, ncall)
 	r.initial, r.steps = compile(sc)
 	cr.steps = len(r.steps)
 	r.conn = jsonrpc2.NewConn(jsonrpc2.NewStream(duplex{in: r.toConn, out: r.toPeer}))
@@ -819,34 +943,7 @@ func runCase(id int, sc *script) (cr caseResult) {
 	}
 
 	// the trace for TLC
-	r.mu.Lock()
-	evs := append([]event(nil), r.log...)
-	r.mu.Unlock()
-	sort.SliceStable(evs, func(i, j int) bool { return evs[i].Seq < evs[j].Seq })
-	nnote := 0
-	noteOf := map[int]int{}
-	for i := range evs {
-		e := &evs[i]
-		e.Pend = []int{}
-		for _, p := range e.rawPnd {
-			c, ok := r.callerOf[p]
-			if !ok {
-				c = 99
-			}
-			e.Pend = append(e.Pend, c)
-		}
-		// notifiers are interchangeable: number their writes in the order they happen
-		if e.W > sc.NC+1 && (e.E == "wbeg" || e.E == "wend") {
-			if _, ok := noteOf[e.W]; !ok {
-				nnote++
-				noteOf[e.W] = 10 + nnote
-			}
-			e.W = noteOf[e.W]
-		}
-	}
-	cr.events = len(evs)
-	line, _ := json.Marshal(map[string]any{"id": id, "ev": evs})
-	cr.trace = line
+	cr.trace, cr.events = r.traceLine(false)
 	for c := 1; c <= sc.NC; c++ {
 		if v, ok := r.returned[c]; ok && c-1 < len(sc.Result) && sc.Result[c-1] != 0 && sc.Result[c-1] != v {
 			cr.diverged = true // the other outcome of a race the spec allows; the trace decides
@@ -855,16 +952,125 @@ func runCase(id int, sc *script) (cr caseResult) {
 	return cr
 }
 
+// runBurst: traceNC callers and two notifiers enter one fresh conn at the same instant (spin barrier, one CPU
+// each); every request carries its caller's marker and the peer echoes it, holding its answers until it has
+// `hold` requests and then answering in a shuffled order.  Nothing is steered: the schedule is whatever the
+// real goroutines do, and the recorded execution is validated by TLC (eager mode of TraceJsonRpc.tla).  The
+// harness itself only watches for calls that do not return.
+const burstWatchdog = 3 * time.Second
+
+func runBurst(id int, rng *rand.Rand) (cr caseResult) {
+	const nnote = 2
+	sc := &script{NC: traceNC, NN: nnote}
+	r := newRun(id, sc, traceNC)
+	r.burst, r.hold, r.burstRng = true, 1+rng.Intn(traceNC), rand.New(rand.NewSource(rng.Int63()))
+	r.gate = &atomic.Bool{}
+	r.conn = jsonrpc2.NewConn(jsonrpc2.NewStream(duplex{in: r.toConn, out: r.toPeer}))
+	runsMu.Lock()
+	runs[r.conn] = r
+	runsMu.Unlock()
+	defer func() {
+		runsMu.Lock()
+		delete(runs, r.conn)
+		runsMu.Unlock()
+		for c := 1; c <= traceNC; c++ {
+			r.cancels[c]()
+		}
+	}()
+	r.conn.Go(context.Background(), func(ctx context.Context, reply jsonrpc2.Replier, req jsonrpc2.Request) error { return nil })
+	peerDone := make(chan struct{})
+	go r.peerLoop(peerDone)
+	fail := func(sig, what string) caseResult {
+		vhlib.Fail(sig, what, r.describeCase(what))
+		r.conn.Close()
+		cr.failed = true
+		return cr
+	}
+
+	// callers and notifiers in a shuffled start order, released together
+	who := []int{}
+	for c := 1; c <= traceNC; c++ {
+		who = append(who, c)
+	}
+	for n := 1; n <= nnote; n++ {
+		who = append(who, 10+n)
+	}
+	rng.Shuffle(len(who), func(i, j int) { who[i], who[j] = who[j], who[i] })
+	for _, w := range who {
+		if w > 10 {
+			r.startNotifier(w)
+		} else {
+			r.startCaller(w)
+		}
+	}
+	for int(r.ready.Load()) < len(who) {
+		runtime.Gosched()
+	}
+	r.gate.Store(true)
+
+	all := who[:0:0]
+	for c := 1; c <= traceNC; c++ {
+		all = append(all, c)
+	}
+	if !r.waitCallers(all, burstWatchdog) {
+		// every request was answered: a call that is still waiting is cancelled by the watchdog and reported
+		r.mu.Lock()
+		var late []int
+		for _, c := range all {
+			if _, ok := r.returned[c]; !ok {
+				late = append(late, c)
+			}
+		}
+		r.timedOut = late
+		r.mu.Unlock()
+		for _, c := range late {
+			r.cancel(c)
+		}
+		if !r.waitCallers(all, hangTimeout) {
+			sig, msg := r.hang("burst: calls cancelled by the watchdog", late)
+			return fail(sig, msg)
+		}
+		cr.unreal = len(late)
+	}
+	done := make(chan struct{})
+	go func() { r.wg.Wait(); close(done) }()
+	select {
+	case <-done:
+	case <-time.After(hangTimeout):
+		sig, msg := r.hang("burst: notifiers did not finish", nil)
+		return fail(sig, msg)
+	}
+	r.conn.Close()
+	select {
+	case <-r.conn.Done():
+	case <-time.After(hangTimeout):
+		vhlib.Fatal("burst %d: conn.Done() not closed after Close", id)
+	}
+	<-peerDone
+	r.mu.Lock()
+	peerErr := append([]string(nil), r.peerErr...)
+	r.mu.Unlock()
+	if len(peerErr) > 0 {
+		return fail("JsonRpc.FramesNeverInterleave", "the peer could not parse what the conn wrote: "+strings.Join(peerErr, "; "))
+	}
+	cr.trace, cr.events = r.traceLine(true)
+	return cr
+}
+
 func connMain(args []string) {
-	if len(args) < 4 {
-		vhlib.Fatal("usage: c18 conn <hist.ndjson> <seed> <trace-out> <workers>")
+	if len(args) < 5 {
+		vhlib.Fatal("usage: c18 conn <hist.ndjson> <seed> <trace-out> <workers> <bursts>")
+	}
+	nbursts, _ := strconv.Atoi(args[4])
+	if runtime.GOMAXPROCS(0) < 2*traceNC {
+		runtime.GOMAXPROCS(2 * traceNC) // the burst callers spin: one thread each, even on a small machine
 	}
 	seed, _ := strconv.ParseInt(args[1], 10, 64)
 	workers, _ := strconv.Atoi(args[3])
 	if workers < 1 {
 		workers = 1
 	}
-	_ = rand.New(rand.NewSource(seed))
+	rng := rand.New(rand.NewSource(seed))
 	var scripts []*script
 	seen := map[string]bool{}
 	err := vhlib.Each(args[0], func(line []byte) error {
@@ -876,7 +1082,9 @@ func connMain(args []string) {
 		if err := json.Unmarshal(line, &s); err != nil {
 			return err
 		}
-		// notifiers are numbered 11.. in the spec; keep them apart from the probe caller
+		if s.NC+1 != traceNC {
+			return fmt.Errorf("script with %d callers: the trace configuration expects %d plus the probe", s.NC, traceNC-1)
+		}
 		scripts = append(scripts, &s)
 		return nil
 	})
@@ -931,6 +1139,22 @@ func connMain(args []string) {
 	}
 	close(jobs)
 	wg.Wait()
+	// bursts: one at a time, so that every spinning caller has a CPU of its own
+	var bursts, burstEvents, burstTimeouts int
+	for b := 0; b < nbursts && fails == 0 && burstTimeouts < 3; b++ {
+		cr := runBurst(100001+b, rng)
+		bursts++
+		if cr.failed {
+			fails++
+			break
+		}
+		if cr.unreal > 0 {
+			burstTimeouts++
+		}
+		burstEvents += cr.events
+		w.Write(cr.trace)
+		w.WriteByte('\n')
+	}
 	w.Flush()
 	jsonrpc2.SetVerifHook(nil)
 	// goroutine leftovers: nothing of the conn may survive its Close
@@ -953,5 +1177,6 @@ func connMain(args []string) {
 		vhlib.Fail("JsonRpc.GoroutineLeak", "a goroutine of lsp/jsonrpc2 is still alive after every conn was closed and every call returned", map[string]any{"goroutine": firstLines(leak, 14)})
 	}
 	vhlib.Summary(map[string]any{"scripts": len(scripts), "cases": cases, "fails": fails, "diverged": diverged, "unrealised_steps": unreal,
-		"script_steps": steps, "events": events, "traces": traces, "aborted": aborted.Load()})
+		"script_steps": steps, "events": events, "traces": traces, "aborted": aborted.Load(),
+		"bursts": bursts, "burst_events": burstEvents, "burst_watchdog_rounds": burstTimeouts, "burst_callers": traceNC})
 }
